@@ -7,74 +7,74 @@ def corpus(pid):
 
 P = {
     "C13": dict(theorems=["Properties/C13.v"],
-                runs=[dict(cmd="c13", quick=4000, thorough=200000, shards_thorough=4),
-                      dict(cmd="pool3", quick=250, thorough=20000, shards_thorough=4, extra=corpus("C14")),
-                      dict(cmd="float", quick=5000, thorough=300000)]),
+                runs=[dict(cmd="c13", quick=4000, thorough=100000, shards_thorough=4),
+                      dict(cmd="pool3", quick=250, thorough=10000, shards_thorough=4, extra=corpus("C14")),
+                      dict(cmd="float", quick=5000, thorough=150000)]),
     "C14": dict(theorems=["Properties/C14.v"],
-                runs=[dict(cmd="pool3", quick=400, thorough=30000, shards_thorough=6, extra=corpus("C14")),
-                      dict(cmd="float", quick=8000, thorough=400000)]),
+                runs=[dict(cmd="pool3", quick=400, thorough=10000, shards_thorough=6, extra=corpus("C14")),
+                      dict(cmd="float", quick=8000, thorough=150000)]),
     "C20": dict(theorems=["Properties/C20.v"],
-                runs=[dict(cmd="c20", quick=3000, thorough=200000, shards_thorough=4)]),
+                runs=[dict(cmd="c20", quick=3000, thorough=100000, shards_thorough=4)]),
     "C19": dict(theorems=["Properties/C19.v"],
-                runs=[dict(cmd="c19", quick=60, thorough=1500, shards_thorough=8)], vm_k=6),
+                runs=[dict(cmd="c19", quick=60, thorough=800, shards_thorough=8)], vm_k=6),
     "C23": dict(theorems=["Properties/C23.v"],
-                runs=[dict(cmd="c23", quick=1200, thorough=30000, shards_thorough=6),
+                runs=[dict(cmd="c23", quick=1200, thorough=15000, shards_thorough=6),
                       dict(cmd="c23ms", quick=1, thorough=1, model=False)], vm_k=20),
     "C28": dict(theorems=["Properties/C28.v"],
-                runs=[dict(cmd="c28", quick=40, thorough=600, shards_thorough=8)], vm_k=12),
+                runs=[dict(cmd="c28", quick=40, thorough=300, shards_thorough=8)], vm_k=12),
     "C01": dict(theorems=["Properties/C01.v"],
-                runs=[dict(cmd="c01", quick=10, thorough=800, shards_thorough=8, model=False),
-                      dict(cmd="ledger", quick=60, thorough=3000, shards_thorough=8)], vm_k=4),
+                runs=[dict(cmd="c01", quick=10, thorough=300, shards_thorough=8, model=False),
+                      dict(cmd="ledger", quick=60, thorough=1200, shards_thorough=8)], vm_k=4),
     "C02": dict(theorems=["Properties/C02.v"],
-                runs=[dict(cmd="c02", quick=10, thorough=800, shards_thorough=8),
-                      dict(cmd="ledger", quick=60, thorough=3000, shards_thorough=8)], vm_k=4),
+                runs=[dict(cmd="c02", quick=10, thorough=300, shards_thorough=8),
+                      dict(cmd="ledger", quick=60, thorough=1200, shards_thorough=8)], vm_k=4),
     "C03": dict(theorems=["Properties/C03.v"],
-                runs=[dict(cmd="c03", quick=80, thorough=3000, shards_thorough=8),
-                      dict(cmd="c03node", quick=30, thorough=800, shards_thorough=8, model=False)], vm_k=4),
+                runs=[dict(cmd="c03", quick=80, thorough=1200, shards_thorough=8),
+                      dict(cmd="c03node", quick=30, thorough=400, shards_thorough=8, model=False)], vm_k=4),
     "C04": dict(theorems=["Properties/C04.v"],
-                runs=[dict(cmd="c04", quick=80, thorough=3000, shards_thorough=8)], vm_k=4),
+                runs=[dict(cmd="c04", quick=80, thorough=1200, shards_thorough=8)], vm_k=4),
     "C05": dict(theorems=["Properties/C05.v"],
-                runs=[dict(cmd="c05", quick=80, thorough=3000, shards_thorough=8),
-                      dict(cmd="c05node", quick=8, thorough=400, shards_thorough=8)], vm_k=4),
+                runs=[dict(cmd="c05", quick=80, thorough=1200, shards_thorough=8),
+                      dict(cmd="c05node", quick=8, thorough=200, shards_thorough=8)], vm_k=4),
     "C06": dict(theorems=["Properties/C06.v"],
-                runs=[dict(cmd="c06", quick=80, thorough=3000, shards_thorough=8),
-                      dict(cmd="c06node", quick=10, thorough=800, shards_thorough=8, model=False)], vm_k=4),
+                runs=[dict(cmd="c06", quick=80, thorough=1200, shards_thorough=8),
+                      dict(cmd="c06node", quick=10, thorough=300, shards_thorough=8, model=False)], vm_k=4),
     "C21": dict(theorems=["Properties/C21.v"],
-                runs=[dict(cmd="c21", quick=80, thorough=3000, shards_thorough=8)], vm_k=4),
+                runs=[dict(cmd="c21", quick=80, thorough=1200, shards_thorough=8)], vm_k=4),
     "C22": dict(theorems=["Properties/C22.v"],
-                runs=[dict(cmd="c22", quick=80, thorough=3000, shards_thorough=8)], vm_k=4),
+                runs=[dict(cmd="c22", quick=80, thorough=1200, shards_thorough=8)], vm_k=4),
     "C26": dict(theorems=["Properties/C26.v"],
-                runs=[dict(cmd="c26", quick=80, thorough=3000, shards_thorough=8),
-                      dict(cmd="c26node", quick=10, thorough=400, shards_thorough=8, model=False)], vm_k=4),
+                runs=[dict(cmd="c26", quick=80, thorough=1200, shards_thorough=8),
+                      dict(cmd="c26node", quick=10, thorough=200, shards_thorough=8, model=False)], vm_k=4),
     "C27": dict(theorems=["Properties/C27.v"],
-                runs=[dict(cmd="c27", quick=80, thorough=3000, shards_thorough=8),
-                      dict(cmd="c27node", quick=10, thorough=400, shards_thorough=8)], vm_k=4),
+                runs=[dict(cmd="c27", quick=80, thorough=1200, shards_thorough=8),
+                      dict(cmd="c27node", quick=10, thorough=200, shards_thorough=8)], vm_k=4),
     "C16": dict(theorems=["Properties/C16.v"],
-                runs=[dict(cmd="c16", quick=6, thorough=60, shards_thorough=8)], vm_k=4),
+                runs=[dict(cmd="c16", quick=6, thorough=30, shards_thorough=8)], vm_k=4),
     "C17": dict(theorems=["Properties/C17.v"],
-                runs=[dict(cmd="c17", quick=9, thorough=100, shards_thorough=8)], vm_k=3),
+                runs=[dict(cmd="c17", quick=9, thorough=50, shards_thorough=8)], vm_k=3),
     "C18": dict(theorems=["Properties/C18.v"],
-                runs=[dict(cmd="c18", quick=30, thorough=500, shards_thorough=8)], vm_k=12),
-    "C10": dict(theorems=["Properties/C10.v"], runs=[dict(cmd="c10", quick=8, thorough=16, shards_thorough=8)], vm_k=4),
-    "C29": dict(theorems=["Properties/C29.v"], runs=[dict(cmd="c29", quick=8, thorough=60, shards_thorough=8)], vm_k=4),
+                runs=[dict(cmd="c18", quick=30, thorough=250, shards_thorough=8)], vm_k=12),
+    "C10": dict(theorems=["Properties/C10.v"], runs=[dict(cmd="c10", quick=8, thorough=10, shards_thorough=8)], vm_k=4),
+    "C29": dict(theorems=["Properties/C29.v"], runs=[dict(cmd="c29", quick=8, thorough=30, shards_thorough=8)], vm_k=4),
     "C12": dict(theorems=["Properties/C12.v"],
-                runs=[dict(cmd="c12", quick=6000, thorough=240000, shards_thorough=4)], vm_k=44),
+                runs=[dict(cmd="c12", quick=6000, thorough=120000, shards_thorough=4)], vm_k=44),
     "C24": dict(theorems=["Properties/C24.v"],
-                runs=[dict(cmd="c24", quick=300, thorough=8000, shards_thorough=4)], vm_k=40),
+                runs=[dict(cmd="c24", quick=300, thorough=4000, shards_thorough=4)], vm_k=40),
     "C07": dict(theorems=["Properties/C07.v"],
-                runs=[dict(cmd="c07", quick=10, thorough=300, shards_thorough=8, model=False)]),
+                runs=[dict(cmd="c07", quick=10, thorough=150, shards_thorough=8, model=False)]),
     "C08": dict(theorems=["Properties/C08.v"],
-                runs=[dict(cmd="c08", quick=6, thorough=40, shards_thorough=6, model=False, extra="procs=4", timeout=3000)], vm_k=0),
+                runs=[dict(cmd="c08", quick=6, thorough=20, shards_thorough=6, model=False, extra="procs=4", timeout=3000)], vm_k=0),
     "C11": dict(theorems=["Properties/C11.v"],
-                runs=[dict(cmd="c11", quick=40, thorough=400, shards_thorough=8, timeout=3000)], vm_k=12),
+                runs=[dict(cmd="c11", quick=40, thorough=200, shards_thorough=8, timeout=3000)], vm_k=12),
     "C15": dict(theorems=["Properties/C15.v"],
-                runs=[dict(cmd="c15", quick=100, thorough=4000, shards_thorough=8)], vm_k=6),
+                runs=[dict(cmd="c15", quick=100, thorough=2000, shards_thorough=8)], vm_k=6),
     "C25": dict(theorems=["Properties/C25.v"], race=True, vm_k=0,
-                runs=[dict(cmd="c25", quick=2, thorough=24, shards_thorough=4, model=False, timeout=3000,
+                runs=[dict(cmd="c25", quick=2, thorough=12, shards_thorough=4, model=False, timeout=3000,
                            extra="/verif/coq/Generated/Locks.unguarded.txt")]),
     "C09": dict(theorems=["Properties/C09.v"],
-                runs=[dict(cmd="appdb", quick=300, thorough=20000, shards_thorough=4),
-                      dict(cmd="c09", quick=16, thorough=240, shards_thorough=8, model=False)]),
+                runs=[dict(cmd="appdb", quick=300, thorough=10000, shards_thorough=4),
+                      dict(cmd="c09", quick=16, thorough=120, shards_thorough=8, model=False)]),
 }
 
 
